@@ -7,9 +7,9 @@ package server
 
 import (
 	"bytes"
-	"os"
 	"context"
 	"fmt"
+	"os"
 	"sort"
 	"testing"
 	"time"
@@ -92,6 +92,12 @@ func TestVerifC04(t *testing.T) {
 				step["newest"], step["hw"], step["isr"], step["acks"] = v.p.log.NewestOffset(), v.p.log.HighWatermark(), isrL, acks
 				steps = append(steps, step)
 				// direct oracle, the property's words
+				for cid, m := range sent {
+					if m["large"].(bool) && m["stored"] == nil && vC04Stored(v, []byte(m["value"].(string))) {
+						m["stored"] = true
+						setViol("rejected-message-stored", fmt.Sprintf("message %s is larger than clustering.replication.max.bytes; it must be refused and never stored, the log holds it", cid))
+					}
+				}
 				for _, a := range acks {
 					m := sent[a["corr"].(string)]
 					if m == nil {
@@ -117,6 +123,10 @@ func TestVerifC04(t *testing.T) {
 							for rep, o := range isr {
 								if o < off {
 									setViol("all-ack-before-replicated", fmt.Sprintf("message %s (ALL) acknowledged at offset %d while in-sync replica %s has only reported %d", a["corr"], off, rep, o))
+								}
+								// what the replica really told this leader, not what the leader believes
+								if fo, isF := follower[rep]; isF && fo < off {
+									setViol("all-ack-before-replicated", fmt.Sprintf("message %s (ALL) acknowledged at offset %d while in-sync replica %s has stored only up to %d (the leader counts it at %d)", a["corr"], off, rep, fo, o))
 								}
 							}
 							m["acked"] = true
@@ -268,6 +278,17 @@ func TestVerifC04(t *testing.T) {
 		srv.stop()
 	}
 	out.emit(vM{"k": "stat", "dist": stats})
+}
+
+// vC04Stored scans the leader's log for a message with the given value.
+func vC04Stored(v *vPart, value []byte) bool {
+	nw := v.p.log.NewestOffset()
+	for off := int64(0); off <= nw; off++ {
+		if bytes.Equal(vC04ValueAt(v, off), value) {
+			return true
+		}
+	}
+	return false
 }
 
 func vC04ValueAt(v *vPart, off int64) []byte {
